@@ -86,8 +86,8 @@ def xlsx_ok(wb: dict) -> bool:
         if len(set(s["cols"])) != len(s["cols"]):
             return False
         for v in [*s["cols"], *[c for r in s["rows"] for c in r]]:
-            if v is not None and re.search(r"[\x00-\x08\x0b\x0c\x0e-\x1f]", v):
-                return False
+            if v is not None and (re.search(r"[\x00-\x08\x0b\x0c\x0e-\x1f]", v) or v.startswith("=")):
+                return False  # control characters are illegal in xlsx; openpyxl stores "=…" as a formula
     return True
 
 
